@@ -117,6 +117,15 @@ def r09_1_2(run):
             gd = gs.guarded_by(n, lambda t: dotted(t) == 'wasnew')
             run.ob('R09.2', su, c, 'attachment decided only when the stream is first seen', any(lab == 'T' for _, lab in gd), slot='wasnew',
                    message='_maybe_attach reachable for streams that are not new (a second decision per stream)')
+    for c in calls:
+        for n in gs.nodes_containing(c):
+            gd1 = gs.guarded_by(n, lambda t: isinstance(t, ast.Compare) and isinstance(t.ops[0], (ast.In, ast.NotIn)) and dotted(t.comparators[0]) == 'self.streams')
+            still = any((lab == 'T') == isinstance(t.ast.ops[0], ast.In) for t, lab in gd1)
+            gd2 = gs.guarded_by(n, lambda t: isinstance(t, ast.Compare) and (dotted(t.left) or '').endswith('.state'))
+            alive = any(True for t, lab in gd2 if any(x in src(t.ast) for x in ('CLOSED', 'FAILED')))
+            run.ob('R09.2', su, c, 'no decision for a stream the same event already closed (still listed after update)', still or alive, slot='still-listed',
+                   message='_maybe_attach is called even if the update removed the stream again (first sight of an id in state CLOSED/FAILED): '
+                           'the attacher is asked about a dead stream and an ATTACHSTREAM is sent for it')
     wn = [(st, v) for st, v in writes_of(su, 'wasnew')]
     for st, v in wn:
         if const(v) is True:
